@@ -25,12 +25,13 @@ Definition rl_tok_ok (k : tkind) (d : str) : bool :=
   | _ => match d with c :: _ => negb (is_name_start c) | [] => true end
   end.
 
-(* a stream of well-formed tokens, no lexical error, exactly one Eof, at the end *)
+(* a stream of well-formed tokens, no lexical error, exactly one Eof, at the end, carrying no text
+   (operation_type and the keyword tests compare a token's data without looking at its kind) *)
 Fixpoint rl_stream (l : list item) : Prop :=
   match l with
   | [] => False
   | IErr _ _ _ :: _ => False
-  | ITok k d _ :: r => if tkind_eqb k TkEof then r = [] else rl_tok_ok k d = true /\ rl_stream r
+  | ITok k d _ :: r => if tkind_eqb k TkEof then r = [] /\ d = [] else rl_tok_ok k d = true /\ rl_stream r
   end.
 
 Fixpoint rl_sig (l : list item) : list rg_token :=
@@ -44,7 +45,7 @@ Lemma rl_stream_significant l : rl_stream l -> rg_significant l = Some (rl_sig l
 Proof.
   induction l as [|[k d i|c d i] r IH]; cbn [rl_stream rg_significant rl_sig]; try contradiction.
   destruct (tkind_eqb k TkEof) eqn:Hk.
-  - intros ->. apply tkind_eqb_eq in Hk. subst k. reflexivity.
+  - intros [-> _]. apply tkind_eqb_eq in Hk. subst k. reflexivity.
   - intros [_ Hr]. rewrite (IH Hr). destruct (rg_ignored k); reflexivity.
 Qed.
 
@@ -409,7 +410,12 @@ Proof. intros [(t & Hc & Hi) _]. exists t. unfold rest_of. rewrite Hc. auto. Qed
 Lemma rl_sigs_eof s t : rl_inv s -> ps_cur s = Some t -> tok_kind t = TkEof -> rl_sigs s = [].
 Proof.
   intros [_ Hs] Hc Hk. unfold rl_sigs, rest_of in *. rewrite Hc in *. cbn [cur_item app rl_stream rl_sig] in *.
-  rewrite Hk in *. cbn in Hs. rewrite Hs. reflexivity.
+  rewrite Hk in *. cbn in Hs. rewrite (proj1 Hs). reflexivity.
+Qed.
+Lemma rl_eof_data s t : rl_inv s -> ps_cur s = Some t -> tok_kind t = TkEof -> tok_data t = [].
+Proof.
+  intros [_ Hs] Hc Hk. unfold rest_of in Hs. rewrite Hc in Hs. cbn [cur_item app rl_stream] in Hs.
+  rewrite Hk in Hs. cbn in Hs. exact (proj2 Hs).
 Qed.
 Lemma rl_sigs_tok s t : rl_inv s -> ps_cur s = Some t -> tok_kind t <> TkEof ->
   rl_sigs s = (tok_kind t, tok_data t) :: rl_sig (ps_items s) /\ rl_tok_ok (tok_kind t) (tok_data t) = true /\
